@@ -6,6 +6,9 @@ impl Out for f64 { fn out(&self) -> String { if self.is_nan() { "fNaN".into() } 
 impl Out for () { fn out(&self) -> String { "()".into() } }
 impl Out for String { fn out(&self) -> String { format!("{:?}", self) } }
 impl Out for std::cmp::Ordering { fn out(&self) -> String { format!("{:?}", self) } }
+impl Out for Lvl { fn out(&self) -> String { format!("{:?}", self) } }
+impl Out for u16 { fn out(&self) -> String { format!("{}", self) } }
+impl Out for i8 { fn out(&self) -> String { format!("{}", self) } }
 impl Out for P { fn out(&self) -> String { format!("P({},{})", self.x.out(), self.n.out()) } }
 impl<T: Out> Out for Option<T> { fn out(&self) -> String { match self { Some(v) => format!("Some({})", v.out()), None => "None".into() } } }
 impl<T: Out, E: Out> Out for Result<T, E> { fn out(&self) -> String { match self { Ok(v) => format!("Ok({})", v.out()), Err(v) => format!("Err({})", v.out()) } } }
